@@ -37,6 +37,10 @@ IMPLEMENTED = {
             'deterministic simulation of the pkg-config peer: cffi.pkgconfig.subprocess rebound to a scripted fake child process with injected spawn failures, non-zero exits, death by signal and undecodable output, placed on any (package, flag) query; a slice of runs through a real stub executable; reference translator as oracle',
             'Seeded search over token sequences and peer failures for flags_from_pkgconfig/merge_flags; every failing or undecodable run must surface as PkgConfigError and every successful one must equal the reference translation including order.',
             'Weakest fit for simulation (the only nondeterministic party is the child process); backslash outputs and prefix/flag combinations the statement leaves open are not generated.'),
+    'C36': ('P', 'exploration', 'DESIGN.md 3.4 and appendix C',
+            'deterministic simulation: seeded baton scheduler over real Python threads AND real pthreads not created by Python (mailbox loop in a helper extension, parked inside a cffi callback), with switch points inside callback bodies, injected GC events, raising bodies, thread exits joined so the TLS destructor has run, thread-state counts read at the reclamation point; plus one-process-per-seed interpreter-shutdown scenarios',
+            'Seeded search over creation/use/exit orders of foreign threads interleaved with Python-thread callbacks and GC; checks valid thread identity, persistence of threading.local data per foreign thread, no leak of thread-local data or thread states into later threads, and survival of the process (including at interpreter shutdown with zombies or live threads).',
+            'Only one OS thread executes Python/cffi code at any instant (GIL build); both USE__THREAD build variants; process-wide thread-state bookkeeping makes runs history dependent (replays carry their prelude).'),
 }
 
 PENDING = {
